@@ -65,6 +65,13 @@ class Report:
             self.counts[k_to] += d.get(k_from, 0)
         self.counts['solver_s'] += d.get('solver_s', 0.0)
 
+    def absorb(self, r):
+        """merge the verdict lists of one worker result (violations, inconclusive, harness errors)"""
+        for v in r.get('violations', []):
+            self.violation(v)
+        self.inconclusive += r.get('inconclusive', [])
+        self.harness_errors += r.get('harness_errors', [])
+
     def sample(self, s, limit=12):
         if len(self.samples) < limit:
             self.samples.append(s)
